@@ -14,7 +14,7 @@ use serde::{Deserialize, Serialize};
 use serde_json::json;
 use std::time::{Duration, Instant};
 
-pub const RULE: &str = "arithmetic: tuples (remaining 0..10^7 ms log-uniform and grid values, increment 0..10^5, moves-to-go none or 1..200, Move Overhead 0..min(1000, remaining/2), side to move, the other side's clock absent / tiny / huge / equal) -> TimeStrategy::new on TimeControl::Clocks, limits read through the hook accessor: hard <= (remaining - overhead)/2 and soft <= hard (tolerance 2^-20 relative + 1 us, the engine computes in f32), no panic; ExactTime(t) => soft = hard = t; and parser::parse('go wtime .. btime .. winc .. binc .. movestogo ..') must put every number into its field. Poll gate ('poll_gate'): should_stop driven like the search drives it (one call per node, consecutive counters) from first counters around 0, 2^16 .. 2^40 (2^32 +- 40000 in a third of the cases) under a 2-11 ms fixed move time or clock limit: a stop answer within 1000000 nodes (a fifth of a second of search) after the limit has passed. Wall clock, shipped binary, at most 4 processes at a time: middlegame positions x remaining 200..2000 ms x increments x moves-to-go x Move Overhead x (a quarter of the cases) an additional 'depth 30-99', the other side's clock 100x larger (one case in six sends 'go movetime <half of that time>' instead of clocks and must likewise answer before the full time has passed); the time from writing 'go' to reading 'bestmove' must be below the remaining time; an overrun counts only if it repeats in three consecutive solo re-runs. Non-trivial = tuple where the 50 % cap binds, or moves-to-go <= 2, or remaining <= 300 ms; distinct by tuple.";
+pub const RULE: &str = "arithmetic: tuples (remaining 0..10^7 ms log-uniform and grid values, increment 0..10^5, moves-to-go none or 1..200, Move Overhead 0..min(1000, remaining/2), side to move, the other side's clock absent / tiny / huge / equal) -> TimeStrategy::new on TimeControl::Clocks, limits read through the hook accessor: hard <= (remaining - overhead)/2 and soft <= hard (tolerance 2^-20 relative + 1 us, the engine computes in f32), no panic; ExactTime(t) => soft = hard = t; and parser::parse('go wtime .. btime .. winc .. binc .. movestogo ..') must put every number into its field. Poll gate ('poll_gate'): should_stop driven like the search drives it (one call per node, consecutive counters) from first counters around 0, 2^16 .. 2^40 (2^32 +- 40000 in a third of the cases) under a 2-11 ms fixed move time or clock limit: a stop answer within 1000000 nodes (a fifth of a second of search) after the limit has passed. Wall clock, shipped binary, at most 4 processes at a time: middlegame positions x remaining 200..2000 ms x increments x moves-to-go x Move Overhead x (a quarter of the cases) an additional 'depth 30-99', the other side's clock 100x larger (one case in six sends 'go movetime <half of that time>' instead of clocks and must likewise answer before the full time has passed; one case in eight runs 255-511 'go depth 1' first, on a 512-1024 MB table, so that the timed search is number 256 / 257 / 512 of its session); the time from writing 'go' to reading 'bestmove' must be below the remaining time; an overrun counts only if it repeats in three consecutive solo re-runs. Non-trivial = tuple where the 50 % cap binds, or moves-to-go <= 2, or remaining <= 300 ms; distinct by tuple.";
 
 #[derive(Serialize, Deserialize, Clone, Debug)]
 pub struct Tuple {
@@ -144,12 +144,18 @@ pub enum Timing {
         /// `go movetime M` (with the optional depth) instead of clocks
         #[serde(default)]
         movetime: Option<u32>,
+        /// the measured search is preceded by this many `go depth 1` in the same process ...
+        #[serde(default)]
+        earlier_searches: u32,
+        /// ... on a table of this size (MB); 16 when absent
+        #[serde(default)]
+        hash_mb: Option<u32>,
     },
 }
 
-fn measure(fen: &str, moves: &[String], white: bool, remaining: u32, inc: u32, mtg: Option<u32>, overhead: u32, depth: Option<u8>, movetime: Option<u32>) -> Result<f64, String> {
+fn measure(fen: &str, moves: &[String], white: bool, remaining: u32, inc: u32, mtg: Option<u32>, overhead: u32, depth: Option<u8>, movetime: Option<u32>, earlier: u32, hash_mb: u32) -> Result<f64, String> {
     let mut e = Engine::spawn(&[])?;
-    e.send("setoption name Hash value 16")?;
+    e.send(&format!("setoption name Hash value {hash_mb}"))?;
     e.send(&format!("setoption name Move Overhead value {overhead}"))?;
     let pos = if moves.is_empty() { format!("position fen {fen}") } else { format!("position fen {fen} moves {}", moves.join(" ")) };
     e.send(&pos)?;
@@ -159,6 +165,18 @@ fn measure(fen: &str, moves: &[String], white: bool, remaining: u32, inc: u32, m
             Some(l) if l == "readyok" => break,
             Some(_) => {}
             None => return Err("engine closed".into()),
+        }
+    }
+    // earlier searches of the session (the search under the clock is then number `earlier` + 1)
+    for _ in 0..earlier {
+        e.send("go depth 1")?;
+        loop {
+            match e.read_line(Duration::from_secs(60))? {
+                Some(l) if l.starts_with("bestmove") => break,
+                Some(l) if l.contains("panic") => return Err(format!("panic: {l}")),
+                Some(_) => {}
+                None => return Err("engine closed".into()),
+            }
         }
     }
     let other = remaining as u64 * 100;
@@ -204,7 +222,7 @@ fn measure(fen: &str, moves: &[String], white: bool, remaining: u32, inc: u32, m
 static SOLO: std::sync::Mutex<()> = std::sync::Mutex::new(());
 
 fn check_timing(c: &Timing, st: &mut Stats) -> Result<(), Fail> {
-    let (fen, moves, remaining, inc, mtg, overhead, depth, movetime) = match c {
+    let (fen, moves, remaining, inc, mtg, overhead, depth, movetime, earlier, hash_mb) = match c {
         Timing::Tape(data) => {
             let mut t = Tape::new(data);
             // a quarter of the cases use capture-storm positions, whose first iteration alone can
@@ -228,9 +246,12 @@ fn check_timing(c: &Timing, st: &mut Stats) -> Result<(), Fail> {
             let depth = if t.pick(4) == 0 { Some(30 + t.pick(70) as u8) } else { None };
             // one case in six: a fixed move time (of half the "clock") instead of clocks
             let movetime = if t.pick(6) == 0 { Some(remaining / 2) } else { None };
-            (fen, moves, remaining, inc, mtg, overhead, depth, movetime)
+            // one case in eight: the search under the clock is the 256th / 257th / 512th of its session,
+            // on a large table
+            let (earlier, hash_mb) = if !storm && t.pick(8) == 0 { ([255u32, 255, 256, 511][t.pick(4)], [512u32, 1024, 1024][t.pick(3)]) } else { (0, 16) };
+            (fen, moves, remaining, inc, mtg, overhead, depth, movetime, earlier, hash_mb)
         }
-        Timing::Explicit { fen, moves, remaining_ms, increment_ms, movestogo, overhead_ms, depth, movetime } => (fen.clone(), moves.clone(), *remaining_ms, *increment_ms, *movestogo, (*overhead_ms).min(*remaining_ms / 2), *depth, *movetime),
+        Timing::Explicit { fen, moves, remaining_ms, increment_ms, movestogo, overhead_ms, depth, movetime, earlier_searches, hash_mb } => (fen.clone(), moves.clone(), *remaining_ms, *increment_ms, *movestogo, (*overhead_ms).min(*remaining_ms / 2), *depth, *movetime, *earlier_searches, hash_mb.unwrap_or(16)),
     };
     let spec = SearchSpec { fen: fen.clone(), moves: moves.clone(), limit: Limit::Depth(1) };
     let Some((pos, _)) = build(&spec) else { return Ok(()) };
@@ -238,10 +259,10 @@ fn check_timing(c: &Timing, st: &mut Stats) -> Result<(), Fail> {
         return Ok(());
     }
     st.eval();
-    let ex = || json!({"Explicit": {"fen": fen, "moves": moves, "remaining_ms": remaining, "increment_ms": inc, "movestogo": mtg, "overhead_ms": overhead, "depth": depth, "movetime": movetime}});
+    let ex = || json!({"Explicit": {"fen": fen, "moves": moves, "remaining_ms": remaining, "increment_ms": inc, "movestogo": mtg, "overhead_ms": overhead, "depth": depth, "movetime": movetime, "earlier_searches": earlier, "hash_mb": hash_mb}});
     let white = pos.white_to_move;
     let io = |e: String| Fail::new("binary:io", format!("engine process: {e}")).explicit(ex());
-    let took = measure(&fen, &moves, white, remaining, inc, mtg, overhead, depth, movetime).map_err(io)?;
+    let took = measure(&fen, &moves, white, remaining, inc, mtg, overhead, depth, movetime, earlier, hash_mb).map_err(io)?;
     st.class(if took < remaining as f64 / 2.0 + 15.0 { "answered_within_half_plus_15ms" } else { "answered_later_than_half_plus_15ms" });
     if remaining <= 300 || mtg.map_or(false, |m| m <= 2) {
         st.nontrivial(&format!("{fen} {moves:?} {remaining} {inc} {mtg:?} {overhead}"));
@@ -254,6 +275,9 @@ fn check_timing(c: &Timing, st: &mut Stats) -> Result<(), Fail> {
     if depth.is_some() {
         st.class("time_limit_together_with_a_depth_limit");
     }
+    if earlier > 0 {
+        st.class("search_number_256_or_more_of_its_session_on_a_large_table");
+    }
     if movetime.is_some() {
         // "a fixed move time is used as given": the answer is due after `remaining / 2` ms; answering
         // later than `remaining` (twice the move time, at least 100 ms late) is the overrun here
@@ -265,14 +289,14 @@ fn check_timing(c: &Timing, st: &mut Stats) -> Result<(), Fail> {
         let _guard = SOLO.lock().unwrap();
         let mut times = vec![took];
         for _ in 0..3 {
-            let again = measure(&fen, &moves, white, remaining, inc, mtg, overhead, depth, movetime).map_err(io)?;
+            let again = measure(&fen, &moves, white, remaining, inc, mtg, overhead, depth, movetime, earlier, hash_mb).map_err(io)?;
             times.push(again);
             if again < remaining as f64 {
                 st.class("overrun_not_repeated");
                 return Ok(());
             }
         }
-        return Err(Fail::new("clock:flag_fall", format!("{} with {remaining} ms on the clock (inc {inc}, movestogo {mtg:?}, overhead {overhead}, depth {depth:?}, movetime {movetime:?}): bestmove after {times:?} ms in four runs", pos.to_fen())).explicit(ex()));
+        return Err(Fail::new("clock:flag_fall", format!("{} with {remaining} ms on the clock (inc {inc}, movestogo {mtg:?}, overhead {overhead}, depth {depth:?}, movetime {movetime:?}, after {earlier} earlier searches, Hash {hash_mb}): bestmove after {times:?} ms in four runs", pos.to_fen())).explicit(ex()));
     }
     Ok(())
 }
